@@ -204,7 +204,9 @@ pub fn candles_burst_flat(rng: &mut Rng, len: usize) -> Vec<Candle> {
 	type V = yata::core::ValueType;
 	let m = 6 + rng.below(40) as usize;
 	let mut p = (5.0 + 95.0 * rng.unit() * 100.0).round() / 100.0;
-	let step = *rng.pick(&[0.05, 0.5, 2.5]);
+	// absolute tick-sized steps, or relative ones of about a tenth of the price (values then change binade often, which is
+	// what gives the residues of two running sums opposite signs)
+	let step = if rng.chance(1, 2) { *rng.pick(&[0.05, 0.5, 2.5]) } else { 0.12 * p };
 	let mut out = Vec::with_capacity(len);
 	for i in 0..len {
 		if i < m {
